@@ -387,8 +387,9 @@ def run_property(prop: str, tier: str, check_fn: Callable, level: str, explanati
                  assumptions: List[str], extra_cmd: str = "") -> int:
     t0 = time.time()
     seed = int(os.environ.get("VERIF_SEED", "0") or 0)
-    evid_path = os.path.join(VERIF, "evidence", f"{prop}.json")
-    out_dir = os.path.join(VERIF, "out", prop)
+    scratch = os.environ.get("VERIF_NOEVID")
+    evid_path = os.path.join(VERIF, "evidence" if not scratch else "out/scratch-evidence", f"{prop}.json")
+    out_dir = os.path.join(VERIF, "out", prop if not scratch else f"scratch-{prop}")
     os.makedirs(os.path.dirname(evid_path), exist_ok=True)
     os.makedirs(out_dir, exist_ok=True)
     for f in os.listdir(out_dir):
